@@ -192,7 +192,32 @@ fn combine_rows(recs: &[String]) -> J {
 pub fn trace(seed: u64, n: usize) -> Vec<J> {
     let mut rng = rand::rngs::StdRng::seed_from_u64(seed);
     let mut ctx = Ctx { dir: scratch(), n: 0 };
-    let cs = corpora();
+    let mut cs = corpora();
+    // a synthetic corpus with large integers (byte counts of some hundred MB, 64-bit identifiers) and reals: squares beyond 2^53, sums near the 64-bit
+    // range -- the order-insensitive aggregates must not depend on the order of such rows either
+    {
+        let defs = ctx.dir.join("big_defs.txt");
+        std::fs::write(&defs, "CREATE TABLE xfer(line = 'host=([a-z0-9]+) bytes=(-?[0-9]+) id=([0-9]+) load=(-?[0-9.]+)', line[1] => host TEXT, line[2] => bytes INT, line[3] => id INT, line[4] => load REAL);").unwrap();
+        let data = ctx.dir.join("big_data.txt");
+        let mut s = String::new();
+        let bytes = [300000123i64, 299999871, 300000007, 300000512, 299999999, 300000256, 95000001, 310000653, 290000007, 17, -300000123, 300000123];
+        let loads = ["0.5", "-0.5", "0.25", "1.5", "0", "-1.5", "2.75", "1024.125"];    // (no -0: MIN over {0, -0} shows whichever came first, equal values)
+        for i in 0..60usize {
+            s.push_str(&format!("host=h{} bytes={} id={} load={}\n", i % 3, bytes[(i * 7) % bytes.len()], 9007199254740990u64 + (i as u64 * 3) % 7, loads[(i * 5) % loads.len()]));
+        }
+        std::fs::write(&data, s).unwrap();
+        cs.push(Corpus { name: "bigint", defs: Box::leak(defs.to_str().unwrap().to_string().into_boxed_str()), data: Box::leak(data.to_str().unwrap().to_string().into_boxed_str()),
+                         queries: vec![
+                             q("SELECT host, STDDEV(bytes) AS sd, VARIANCE(bytes) AS var, AVG(bytes) AS a FROM xfer GROUP BY host", true, true),
+                             q("SELECT VARIANCE(bytes) AS var, SUM(bytes) AS s, COUNT(DISTINCT id) AS ids, MAX(id) AS hi, MIN(id) AS lo FROM xfer", true, true),
+                             q("SELECT host, SUM(load) AS l, MIN(load) AS lo, MAX(load) AS hi, PERCENTILE(bytes, 0.5) AS p50 FROM xfer GROUP BY host HAVING COUNT(*) >= 1", true, true),
+                             q("SELECT id, COUNT(*) AS n, SUM(bytes) AS s FROM xfer WHERE bytes > 0 GROUP BY id", true, true),
+                             q("SELECT host, bytes, id FROM xfer WHERE id >= 9007199254740993 AND bytes != 17", false, false),
+                             q("SELECT DISTINCT id FROM xfer", false, false),
+                         ],
+                         noise: vec!["", "host= bytes=1 id=2 load=3", "host=h1 bytes=x id=1 load=1"],
+                         combine: None });       // (the combination law adds sums in TLC's 32-bit integers)
+    }
     let none = json!({"at": "none", "n": 0});
     let mut ev = Vec::new();
     for round in 0..n {
